@@ -324,6 +324,18 @@ def rx_comm(op, a, b):
 from fractions import Fraction
 
 
+# integer types narrower than the pointer width: a cast to one of them can truncate
+NARROW_INT = ("u8", "u16", "u32", "i8", "i16", "i32")
+
+
+def strip_result_cast(e):
+    """the outermost conversion of a value to the (narrow) type of the slot it is stored in / returned through
+    is part of the slot's type, not of the formula: `(expr) as u16` stored in a u16 field"""
+    if isinstance(e, tuple) and e and e[0] == "cast" and e[1] in NARROW_INT:
+        return e[2]
+    return e
+
+
 def _const_val(e):
     if e[0] == "cast":
         return _const_val(e[2])
@@ -358,7 +370,10 @@ def acnf(e, consts=None):
             return _fr(v)
         return show(e)
     if k == "cast":
-        return acnf(e[2], consts)  # numeric widening casts are transparent for the formula's shape
+        if e[1] in NARROW_INT:
+            # a cast to a narrow integer type may truncate: it is part of the formula
+            return "cast<%s>(%s)" % (e[1], acnf(e[2], consts))
+        return acnf(e[2], consts)  # widening casts / int->float are transparent for the formula's shape
     cv = _const_val(e)
     if cv is not None:
         return _fr(cv)
@@ -405,7 +420,7 @@ def _prod(e, consts):
     v0 = _const_val(e)
     if v0 is not None:
         return v0, [], []
-    if e[0] == "cast":
+    if e[0] == "cast" and e[1] not in NARROW_INT:
         return _prod(e[2], consts)
     if e[0] == "bin" and e[1] == "Div" and not (_is_float(e[2]) or _is_float(e[3])):
         # integer division truncates: it is not the inverse of multiplication, keep it opaque
@@ -550,6 +565,8 @@ def poly(e):
     if v is not None:
         return {(): v} if v != 0 else {}
     if k == "cast" and not _is_float(e):
+        if e[1] in NARROW_INT:
+            return {("cast<%s>(%s)" % (e[1], poly_str(e[2])),): Fraction(1)}
         return poly(e[2])
     if k == "bin" and e[1] in ("Add", "Sub", "AddWithOverflow", "SubWithOverflow") and not _is_float(e):
         a, b = poly(e[2]), poly(e[3])
